@@ -42,6 +42,10 @@ var modelMap = map[string]string{
 	"strings.Clone":                        "CloneString",
 	"internal/oserror.init":                "",
 	"html.UnescapeString":                  "HTMLUnescape",
+	"fmt.Sprintf":                          "Sprintf",
+	"fmt.Errorf":                           "Errorf",
+	"fmt.Sprint":                           "Sprint",
+	"fmt.Sprintln":                         "Sprintln",
 }
 
 func noop(it *Interp, fn *ssa.Function, args []Value) Value { return Value{} }
